@@ -109,6 +109,10 @@ def make_builtins(X):
             return fn
         return deco
 
+    @reg('print')
+    def _print(X, args, kw, node):
+        return NONE
+
     @reg('len')
     def _len(X, args, kw, node):
         v = deref(args[0])
@@ -1406,10 +1410,18 @@ EXTERNALS = {
 }
 
 
+def noop(X, args, kw, node):
+    return NONE
+
+
 def external(X, dotted):
     from .exec import Builtin
     if dotted in EXTERNALS:
         return Builtin(dotted, EXTERNALS[dotted])
+    # logging / tracing calls have no effect on the verified state
+    if dotted.split('.')[0] == 'logging' and dotted.split('.')[-1] in (
+            'debug', 'info', 'warning', 'error', 'exception', 'critical', 'log'):
+        return Builtin(dotted, noop)
     if dotted == 'math.pi':
         return ZV(PI)
     h = X.spec.externals.get(dotted)
